@@ -4,9 +4,10 @@ by a checker."""
 
 from __future__ import annotations
 
+import os
 import sys
 
-sys.path.insert(0, "/repo")
+sys.path.insert(0, os.environ.get("VGI_RPC_ROOT", "/repo"))  # VGI_RPC_ROOT: try a patched scratch copy
 
 from dataclasses import dataclass  # noqa: E402
 from io import BytesIO  # noqa: E402
